@@ -842,7 +842,7 @@ pub fn c15(id: &str, f: &Forest, r: &[(CompressionType, Enc)], out: &mut Vec<Str
         cut(&forest::value_with_labels(&map_refs(&v, &mut |_| Ref::none())))
     };
     let check = |path: &str, f: &Forest, e: &Enc, out: &mut Vec<String>| {
-        let quantise = path == "write";
+        let quantise = path == "write" || path.starts_with("read-serialized-name");
         let unmig_all: Vec<(String, bool)> = f
             .nodes
             .iter()
@@ -974,7 +974,80 @@ pub fn c15(id: &str, f: &Forest, r: &[(CompressionType, Enc)], out: &mut Vec<Str
         if out.len() > before {
             break;
         }
+        // the same file with its PROP chunks in the opposite order: "regardless of the order in which the two are encountered"
+        if let Enc::Bytes(b) = &e {
+            if let Some(rev) = reverse_props(b) {
+                check("read-reversed", &g, &Enc::Bytes(rev), out);
+                if out.len() > before {
+                    break;
+                }
+            }
+        }
+        // ... and with the explicit new property spelled the way real files spell it: under its SERIALIZED name and type
+        // (BasePart.Color is `Color3uint8` in files), legacy chunk before and after it
+        for (legacy, new_name, _) in &pairs {
+            if !(n.props.iter().any(|(k, _)| k == legacy) && n.props.iter().any(|(k, _)| k == new_name)) {
+                continue;
+            }
+            let Some(ser) = rbx_binary::verif::find_property_descriptors(db, rbx_dom_weak::ustr(&n.class), rbx_dom_weak::ustr(new_name)).and_then(|d| d.serialized) else { continue };
+            if ser.name == *new_name {
+                continue;
+            }
+            let mut n2 = n.clone();
+            for (k, v) in n2.props.iter_mut() {
+                if k == new_name {
+                    *k = ser.name.to_string();
+                    if let Variant::Color3(c) = v {
+                        *v = Variant::Color3uint8((*c).into());
+                    }
+                }
+            }
+            let mut g2 = Forest::default();
+            g2.nodes.push(n2);
+            g2.roots = vec![n.label];
+            let mut ctx2 = RefCtx::new();
+            let dom2 = forest::build_dom(&g2, &mut ctx2);
+            let roots2: Vec<Ref> = vec![ctx2.ref_of(n.label)];
+            if let Ok(Ok(b2)) = crate::binfile::guarded(|| {
+                let mut buf = Vec::new();
+                rbx_binary::Serializer::new().reflection_database(&empty).compression_type(CompressionType::None).serialize(&mut buf, &dom2, &roots2).map(|_| buf)
+            }) {
+                check("read-serialized-name", &g, &Enc::Bytes(b2.clone()), out);
+                if let Some(rev) = reverse_props(&b2) {
+                    check("read-serialized-name-reversed", &g, &Enc::Bytes(rev), out);
+                }
+            }
+            if out.len() > before {
+                break;
+            }
+        }
+        if out.len() > before {
+            break;
+        }
     }
+}
+
+/// the same uncompressed file with its PROP chunks in the opposite order (None when the file does not de-frame)
+fn reverse_props(bytes: &[u8]) -> Option<Vec<u8>> {
+    let (header, chunks) = crate::binfile::deframe(bytes)?;
+    let props: Vec<usize> = chunks.iter().enumerate().filter(|(_, (n, _))| n == b"PROP").map(|(i, _)| i).collect();
+    if props.len() < 2 {
+        return None;
+    }
+    let mut order: Vec<usize> = (0..chunks.len()).collect();
+    for (a, b) in props.iter().zip(props.iter().rev()) {
+        order[*a] = *b;
+    }
+    let mut out = header;
+    for i in order {
+        let (name, data) = &chunks[i];
+        out.extend_from_slice(name);
+        out.extend_from_slice(&0u32.to_le_bytes());
+        out.extend_from_slice(&(data.len() as u32).to_le_bytes());
+        out.extend_from_slice(&0u32.to_le_bytes());
+        out.extend_from_slice(data);
+    }
+    Some(out)
 }
 
 /// the database default a class column must show for instances lacking the property: the entry of the NEAREST class in the
